@@ -19,9 +19,9 @@ GO = os.path.join(ROOT, "go")
 NPROC = os.cpu_count() or 4
 
 FORBIDDEN = re.compile(
-    r"\b(Admitted|admit|Axiom|Axioms|Parameter|Parameters|Conjecture|Conjectures|Admit Obligations|"
+    r"\b(Admitted|Axiom|Axioms|Parameter|Parameters|Conjecture|Conjectures|Admit Obligations|give_up|"
     r"Unset Guard Checking|Unset Positivity Checking|Unset Universe Checking|bypass_check|native_compute)\b"
-    r"|-type-in-type|-impredicative-set")
+    r"|(?<![\w.'])admit\s*[.;)\]|]|-type-in-type|-impredicative-set")
 
 # axioms of the Coq standard library that may appear under Print Assumptions (each is named in evidence)
 STD_AXIOMS = {
@@ -156,13 +156,42 @@ def coq_error_summary(log):
     return out[:5]
 
 
-def forbidden_scan():
-    """No admits, axioms or switched-off checks anywhere in the development."""
+def dep_closure(targets):
+    """The .v files the given .vo targets depend on (from coq_makefile's .Makefile.d), incl. themselves."""
+    deps = {}
+    try:
+        with open(os.path.join(COQ, ".Makefile.d")) as f:
+            for line in f.read().replace("\\\n", " ").splitlines():
+                if ":" not in line:
+                    continue
+                lhs, rhs = line.split(":", 1)
+                vo = [x for x in lhs.split() if x.endswith(".vo")]
+                ds = [x for x in rhs.split() if x.endswith(".vo") and not x.startswith("/")]
+                for v in vo:
+                    deps.setdefault(v, set()).update(ds)
+    except FileNotFoundError:
+        return None
+    seen, todo = set(), list(targets)
+    while todo:
+        t = todo.pop()
+        if t in seen:
+            continue
+        seen.add(t)
+        todo += list(deps.get(t, ()))
+    return {t[:-1] for t in seen}
+
+
+def forbidden_scan(targets=None):
+    """No admits, axioms or switched-off checks in the development this property depends on
+    (whole coq/ tree when no targets are given)."""
     hits = []
+    only = dep_closure(targets) if targets else None
     for d, _, files in os.walk(COQ):
         for fn in files:
             if fn.endswith(".v"):
                 p = os.path.join(d, fn)
+                if only is not None and os.path.relpath(p, COQ) not in only:
+                    continue
                 with open(p, errors="replace") as f:
                     txt = f.read()
                 txt = re.sub(r"\(\*.*?\*\)", "", txt, flags=re.S)
